@@ -30,7 +30,7 @@ const (
 	recOP    = recNThr + 2
 	recUnit  = 100 * time.Millisecond
 
-	recWatchdog = 120 * time.Second // an execution lasts ~3 s
+	recWatchdog = 45 * time.Second // an execution lasts ~3 s
 )
 
 var scriptOps = map[string][]string{
